@@ -11,6 +11,7 @@ CONSTANTS
   Lag = 2
   MaxFaults = 1
   MaxPolls = 1
+  MaxRestarts = 0
   FixH13 = TRUE
   FixRevertVerify = TRUE
   FixUnderflow = TRUE
